@@ -6,3 +6,4 @@ open SSVerif.Align.Wrap
 #print axioms C04_wrapper_words_are_first_pass
 #print axioms C04_wrapper_reuse
 #print axioms C04_wrapper_repeated_call
+#print axioms C04_wrapper_replaced_search_null
